@@ -26,15 +26,20 @@ var (
 // Findings returns all entries of the known-findings file.
 func Findings() []Finding {
 	knownOnce.Do(func() {
-		b, err := os.ReadFile(filepath.Join(VerifDir(), "known_findings.json"))
-		if err != nil {
-			return
-		}
-		var f struct {
-			Findings []Finding `json:"findings"`
-		}
-		if json.Unmarshal(b, &f) == nil {
-			known = f.Findings
+		files := []string{filepath.Join(VerifDir(), "known_findings.json")}
+		more, _ := filepath.Glob(filepath.Join(VerifDir(), "known_findings.d", "*.json"))
+		files = append(files, more...)
+		for _, name := range files {
+			b, err := os.ReadFile(name)
+			if err != nil {
+				continue
+			}
+			var f struct {
+				Findings []Finding `json:"findings"`
+			}
+			if json.Unmarshal(b, &f) == nil {
+				known = append(known, f.Findings...)
+			}
 		}
 	})
 	return known
